@@ -68,13 +68,25 @@ def errclass(e):
     return "Other:" + type(e).__name__
 
 
-def make_top(md, chains):
+def make_top(md, chains, bonded=False):
+    """bonded=False: one atom per residue, no bonds (Topology.__eq__ is then equality of the chains of kinds).
+    bonded=True: runs of up to two consecutive atoms of the same sort (solvent / not) share a residue and consecutive
+    atoms of a chain are bonded, so deepcopy / subset / Topology.join have residue, atom and bond objects to keep apart
+    (the object-identity oracle below looks at all of them)."""
     top = md.Topology()
     for ch in chains:
         c = top.add_chain()
+        prev, res, count = None, None, 0
         for k in ch:
-            r = top.add_residue("HOH" if k >= 100 else "ALA", c)
-            top.add_atom("A%d" % k, getattr(md.element, ELEMS[k % 3]), r)
+            solv = k >= 100
+            if not bonded or res is None or count >= 2 or solv != (res.name == "HOH"):
+                res = top.add_residue("HOH" if solv else "ALA", c)
+                count = 0
+            a = top.add_atom("A%d" % k, getattr(md.element, ELEMS[k % 3]), res)
+            count += 1
+            if bonded and prev is not None:
+                top.add_bond(prev, a)
+            prev = a
     return top
 
 
@@ -253,7 +265,7 @@ def run_case(md, case):
             src["len"], src["ang"] = ln.copy(), an.copy()
             kw["unitcell_lengths"], kw["unitcell_angles"] = ln, an
         sources[s] = src
-        regs.append(md.Trajectory(xyz, make_top(md, chains), **kw))
+        regs.append(md.Trajectory(xyz, make_top(md, chains, bool(case.get("bonded"))), **kw))
 
     steps = []
     overlap = []       # numeric overlap decisions of every join(discard_overlapping_frames=True)
@@ -430,6 +442,8 @@ def run_case(md, case):
                         hit = "topology"
                     if hit is not None:
                         prop.append({"step": si, "kind": "result-shares-mutable-data", "op": name, "field": hit})
+                if name == "stack" and (top_objects(new._topology) & before_tops):
+                    prop.append({"step": si, "kind": "stack-topology-shares-objects-with-an-input", "op": name})
                 ln = {len(a) for a in arrays_of(new)[:4] if a is not None}
                 if len(ln) > 1:
                     prop.append({"step": si, "kind": "fields-differ-in-length", "op": name})
